@@ -886,6 +886,9 @@ void remove_duplicates_helper(COOMatrix* A, std::vector<T>& vals)
     int prev_row, prev_col, ctr;
     int row, col;
 
+    // Nothing to merge in an empty matrix (and no entry 0 to read)
+    if (A->nnz == 0) return;
+
     // Remove duplicates (sum together)
     prev_row = A->idx1[0];
     prev_col = A->idx2[0];
